@@ -599,7 +599,9 @@ func (w FederatingWrappedCallbacks) accept(c context.Context, a vocab.ActivitySt
 			for iter := actors.Begin(); iter != actors.End(); iter = iter.Next() {
 				id, err := ToId(iter)
 				if err != nil {
-					return err
+					// Names nobody (no id): neither this actor nor an
+					// accepting one.
+					continue
 				}
 				if id.String() == actorIRI.String() {
 					maybeMyFollowIRI = followId
@@ -653,7 +655,9 @@ func (w FederatingWrappedCallbacks) accept(c context.Context, a vocab.ActivitySt
 				for iter := actors.Begin(); iter != actors.End(); iter = iter.Next() {
 					id, err := ToId(iter)
 					if err != nil {
-						return err
+						// Names nobody (no id): neither this actor nor an
+						// accepting one.
+						continue
 					}
 					if id.String() == actorIRI.String() {
 						ok = true
@@ -680,7 +684,9 @@ func (w FederatingWrappedCallbacks) accept(c context.Context, a vocab.ActivitySt
 				for iter := followObj.Begin(); iter != followObj.End(); iter = iter.Next() {
 					id, err := ToId(iter)
 					if err != nil {
-						return err
+						// Names nobody (no id): neither this actor nor an
+						// accepting one.
+						continue
 					}
 					if _, ok := acceptActors[id.String()]; ok {
 						acceptActors[id.String()] = true
